@@ -273,6 +273,65 @@ func TestGovcBoundedC03Mirror(t *testing.T) {
 			}
 		}
 	}
+	// the module / submodule statement itself: what belongs to the one kind is refused under the other
+	for _, text := range []string{
+		"module m { namespace \"urn:m\"; prefix m; belongs-to o { prefix o; } }",
+		"submodule s { belongs-to m { prefix m; } namespace \"urn:s\"; }",
+		"submodule s { belongs-to m { prefix m; } prefix s; }",
+		"submodule s { prefix s; belongs-to m { prefix m; } }",
+		"submodule s { belongs-to m { prefix m; } namespace \"urn:s\"; prefix s; }",
+	} {
+		evals++
+		if err := NewModules().Parse(text, "kind.yang"); err == nil {
+			fmt.Printf("GOVC-FAIL name=c03-rejection a statement of the other kind (module / submodule) is accepted: %s\n", text)
+		}
+	}
+	// a refused text, then a text whose faulty statement stands where the refused text had a
+	// complete one -- at several depths and with the module header before or after the body
+	// (whatever a refused build leaves behind must not make up for what the next one lacks)
+	{
+		wrap := func(depth int, inner string, headerFirst bool) string {
+			body := inner
+			for i := depth; i > 0; i-- {
+				body = fmt.Sprintf("container c%d { %s }", i, body)
+			}
+			if headerFirst {
+				return "module m { namespace \"urn:m\"; prefix m; " + body + " }"
+			}
+			return "module m { " + body + " namespace \"urn:m\"; prefix m; }"
+		}
+		for depth := 0; depth < 4; depth++ {
+			for _, hf := range []bool{true, false} {
+				for _, pair := range [][2]string{
+					{"leaf x { type string { bogus 1; } }", "leaf y { description \"no type\"; }"},
+					{"leaf x { type string; bogus 1; }", "leaf y { description \"no type\"; }"},
+					{"leaf-list x { type string; bogus 1; }", "leaf-list y { description \"no type\"; }"},
+					{"typedef x { type string; bogus 1; }", "typedef y { description \"no type\"; }"},
+				} {
+					for d2 := 0; d2 < 4; d2++ {
+						evals++
+						ms := NewModules()
+						if err := ms.Parse(wrap(depth, pair[0], true), "refused.yang"); err == nil {
+							fmt.Printf("GOVC-FAIL name=c03-rejection accepted: %s\n", wrap(depth, pair[0], true))
+						}
+						if text := wrap(d2, pair[1], hf); ms.Parse(text, "fault.yang") == nil {
+							fmt.Printf("GOVC-FAIL name=c03-rejection an absent mandatory substatement is accepted after a refused text: %s\n", text)
+						}
+					}
+				}
+			}
+		}
+		for _, hf := range []string{"module m { import other { description \"no prefix\"; } namespace \"urn:m\"; prefix m; }", "module m { namespace \"urn:m\"; prefix m; import other { description \"no prefix\"; } }", "module m { prefix m; leaf z { type string; } }"} {
+			for _, refused := range []string{"module bad { namespace \"urn:bad\"; prefix bad; bogus 1; }", "module bad { namespace \"urn:bad\"; prefix bad; import o { prefix o; bogus 1; } }"} {
+				evals++
+				ms := NewModules()
+				ms.Parse(refused, "refused.yang")
+				if ms.Parse(hf, "fault.yang") == nil {
+					fmt.Printf("GOVC-FAIL name=c03-rejection an absent mandatory substatement is accepted after a refused text: %s\n", hf)
+				}
+			}
+		}
+	}
 	// every keyword under every statement that has no place for it: starting from the module
 	// node type, the node types are explored through their tagged fields; for each type P (reached
 	// by a chain of keywords from module) and each keyword K of the whole vocabulary that P has
